@@ -6,6 +6,7 @@ import os
 from lib import core
 
 LEVEL = 'proof'
+BBH_FEATURES = []      # harness command families this check needs (fallback build, lib/core.py build_bbh)
 ASSUMPTIONS = [
     'theorems speak about answers (model returns Ok); a Rust panic (unimplemented!() on Mult, index beyond the '
     'span, overflowing + under overflow-checks) is "no answer" and is tied by correspondence only',
@@ -615,7 +616,7 @@ def wrap_profile(rep, cs):
     """same cases on the harness built WITHOUT overflow checks (= cargo --release of /repo): only the
     property oracle applies (the model mirrors the checked profile)"""
     try:
-        core.build_bbh('wrap')
+        core.build_bbh('wrap', features=BBH_FEATURES)
         h = core.run_bbh([f'{i}|{l}' for i, l in cs], profile='wrap')
     except (core.BuildError, OSError) as ex:
         rep.notes.append(f'wrap profile not run: {ex}')
